@@ -195,7 +195,7 @@ Proof.
   unfold count_ell. induction idx as [|x r IH]; cbn [filter length]; [discriminate|].
   destruct x; cbn [is_ell first_pos firstn skipn expand_ell app Nat.add]; intros H;
     try (f_equal; apply IH; exact H).
-  reflexivity.
+  all: try reflexivity.
 Qed.
 
 Lemma expand_ell_len idx k :
@@ -232,14 +232,14 @@ Proof.
   destruct (1 <? count_ell idx) eqn:E1; [discriminate|]. apply Nat.ltb_ge in E1.
   destruct (n <? length idx - count_ell idx) eqn:E2; [discriminate|]. apply Nat.ltb_ge in E2.
   injection H as <-. rewrite existsb_count_ell.
-  assert (Hc : count_ell idx <= length idx) by (unfold count_ell; apply filter_length_le).
+  assert (Hc : count_ell idx <= length idx) by (unfold count_ell; clear; induction idx as [|y r IH]; cbn [filter length]; [lia|destruct (is_ell y); cbn [length]; lia]).
   destruct (count_ell idx =? 1) eqn:E3.
   - apply Nat.eqb_eq in E3. rewrite E3. cbn [Nat.eqb negb].
     replace (Z.to_nat (Z.of_nat n - (Z.of_nat (length idx) - 1))) with (n - (length idx - 1)) by lia.
     rewrite expand_ell_code by exact E3.
     pose proof (expand_ell_len idx (n - (length idx - 1)) E3) as L.
     assert (Hl : length (expand_ell idx (n - (length idx - 1))) = n) by lia.
-    rewrite Hl, Nat.ltb_irrefl. split; [reflexivity|]. split; [exact Hl|].
+    rewrite Hl, Nat.ltb_irrefl. split; [reflexivity|]. split; [reflexivity|].
     apply no_ell_expand. exact E3.
   - apply Nat.eqb_neq in E3. assert (E0 : count_ell idx = 0) by lia. rewrite E0. cbn [Nat.eqb negb].
     rewrite E0 in *. rewrite Nat.sub_0_r in *.
@@ -294,20 +294,8 @@ Proof.
     eapply IH; [|eassumption]. cbn in Hl. lia.
 Qed.
 
-Lemma krel_trans_check m x n y : krel (fst x) (fst (y, n)) ->
-  forall z, (let (x0, n0) := ((y, n) : nidx * nat) in
-             match x0 with
-             | NL l => if m =? 0 then Ok (NL (map (fun _ => 0%Z) l))
-                       else do l' <- mapM (fun k => norm_int k n0) l; Ok (NL (map Z.of_nat l'))
-             | _ => Ok x0
-             end) = Ok z -> krel (fst x) z.
-Proof.
-  intros H z Hz. cbn [fst] in *. destruct y as [k|st sp len|l]; cbn in Hz.
-  - injection Hz as <-. exact H.
-  - injection Hz as <-. exact H.
-  - destruct (fst x); cbn [krel] in *; try contradiction.
-    destruct (m =? 0); [injection Hz as <-; exact I|]. inv_bind Hz. injection Hz as <-. exact I.
-Qed.
+Lemma Forall2_len (A B : Type) (R : A -> B -> Prop) l l' : Forall2 R l l' -> length l = length l'.
+Proof. intros H. induction H; cbn [length]; [reflexivity|lia]. Qed.
 
 Lemma forallb_no_ell ex : count_ell ex = 0 -> Forall (fun x => is_ell x = false) ex.
 Proof.
@@ -326,7 +314,7 @@ Proof.
   assert (F0 : Forall2 krel ex nix0).
   { apply forallb_no_ell in He.
     apply (Forall2_combine_l _ _ _ krel ex sh nix0 Hl).
-    clear Hl. revert sh nix0 H0. induction He as [|x r Hx _ IH]; intros sh nix0 H0.
+    clear Hl H1. revert sh nix0 H0. induction He as [|x r Hx _ IH]; intros sh nix0 H0.
     - cbn in H0. injection H0 as <-. constructor.
     - destruct sh as [|n sh]; cbn [combine mapM] in H0.
       + injection H0 as <-. constructor.
@@ -334,31 +322,35 @@ Proof.
         * cbn [fst]. eapply norm_one_krel; eassumption.
         * apply IH. exact Hx1. }
   unfold check_lists in H1. clear H0.
-  assert (Hl0 : length nix0 = length sh) by (apply Forall2_length in F0; lia).
+  assert (Hl0 : length nix0 = length sh) by (apply Forall2_len in F0; lia).
   clear Hl He. revert sh nix Hl0 H1. induction F0 as [|x y ex nix0 Hxy _ IH]; intros sh nix Hl0 H1.
   - cbn in H1. injection H1 as <-. constructor.
   - destruct sh as [|n sh]; [discriminate|]. cbn [combine mapM] in H1.
     inv_bind H1. inv_bind H1. injection H1 as <-. constructor.
-    + destruct y as [k|st sp len|l]; cbn in Hx0.
-      * injection Hx0 as <-. exact Hxy.
-      * injection Hx0 as <-. exact Hxy.
+    + destruct y as [k|st sp len|l]; cbn in Hx.
+      * injection Hx as <-. exact Hxy.
+      * injection Hx as <-. exact Hxy.
       * destruct x; cbn [krel] in *; try contradiction.
-        destruct (m =? 0); [injection Hx0 as <-; exact I|]. inv_bind Hx0. injection Hx0 as <-. exact I.
-    + apply (IH sh); [cbn in Hl0; lia|exact Hx1].
+        destruct (m =? 0); [injection Hx as <-; exact I|]. inv_bind Hx. injection Hx as <-. exact I.
+    + apply (IH sh); [cbn in Hl0; lia|exact Hx0].
 Qed.
 
+Lemma Forall2_imp (A B : Type) (R S : A -> B -> Prop) l l' :
+  (forall x y, R x y -> S x y) -> Forall2 R l l' -> Forall2 S l l'.
+Proof. intros HRS H. induction H; constructor; auto. Qed.
+
 Lemma krel_int ex nix : Forall2 krel ex nix -> Forall2 (fun x y => is_int x = is_NI y) ex nix.
-Proof. intros H. eapply Forall2_impl; [|exact H]. intros [] [] K; cbn in *; try contradiction; reflexivity. Qed.
+Proof. intros H. eapply Forall2_imp; [|exact H]. intros [] [] K; cbn in *; try contradiction; reflexivity. Qed.
 Lemma krel_list ex nix : Forall2 krel ex nix -> Forall2 (fun x y => is_list x = is_NL y) ex nix.
-Proof. intros H. eapply Forall2_impl; [|exact H]. intros [] [] K; cbn in *; try contradiction; reflexivity. Qed.
+Proof. intros H. eapply Forall2_imp; [|exact H]. intros [] [] K; cbn in *; try contradiction; reflexivity. Qed.
 Lemma krel_slice ex nix : Forall2 krel ex nix -> Forall2 (fun x y => is_slice x = is_NS y) ex nix.
-Proof. intros H. eapply Forall2_impl; [|exact H]. intros [] [] K; cbn in *; try contradiction; reflexivity. Qed.
+Proof. intros H. eapply Forall2_imp; [|exact H]. intros [] [] K; cbn in *; try contradiction; reflexivity. Qed.
 Lemma krel_nslice ex nix :
   Forall2 krel ex nix -> Forall2 (fun x y => negb (is_slice x) = negb (is_NS y)) ex nix.
-Proof. intros H. eapply Forall2_impl; [|exact H]. intros [] [] K; cbn in *; try contradiction; reflexivity. Qed.
+Proof. intros H. eapply Forall2_imp; [|exact H]. intros [] [] K; cbn in *; try contradiction; reflexivity. Qed.
 Lemma krel_kept_sliced ex nix :
   Forall2 krel ex nix -> Forall2 (fun x y => (negb (is_int x) && negb (is_list x)) = is_NS y) ex nix.
-Proof. intros H. eapply Forall2_impl; [|exact H]. intros [] [] K; cbn in *; try contradiction; reflexivity. Qed.
+Proof. intros H. eapply Forall2_imp; [|exact H]. intros [] [] K; cbn in *; try contradiction; reflexivity. Qed.
 Lemma krel_kept_nolist ex nix :
   Forall2 krel ex nix -> existsb is_NL nix = false ->
   Forall2 (fun x y => negb (is_int x) = is_NS y) ex nix.
@@ -394,6 +386,12 @@ Proof.
   - rewrite Nat.add_0_r. reflexivity.
   - destruct l as [|x r]; [cbn in H; lia|]. cbn [length seq combine skipn].
     rewrite IH by (cbn in H; lia). replace (S k + fa) with (k + S fa) by lia. reflexivity.
+Qed.
+
+Lemma filter_all (A : Type) (p : A -> bool) l : (forall x, In x l -> p x = true) -> filter p l = l.
+Proof.
+  induction l as [|x r IH]; intros H; [reflexivity|]. cbn [filter].
+  rewrite (H x) by (left; reflexivity). f_equal. apply IH. intros y Hy. apply H. right. exact Hy.
 Qed.
 
 (* ------------------------------------------------------------------ the kept axes *)
@@ -436,7 +434,7 @@ Proof.
     assert (Hnb : length (filter (fun i => i <? fa) (pos_from 0 is_NS nix)) = fa).
     { rewrite Hsplit, filter_app, app_length.
       assert (F1 : filter (fun i => i <? fa) (seq 0 fa) = seq 0 fa).
-      { apply forallb_filter_id. apply forallb_forall. intros i Hi. apply in_seq in Hi. apply Nat.ltb_lt. lia. }
+      { apply filter_all. intros i Hi. apply in_seq in Hi. apply Nat.ltb_lt. lia. }
       assert (F2 : filter (fun i => i <? fa) T = []).
       { clear -T. assert (H : forall i, In i T -> fa <= i) by (intros i Hi; apply pos_from_ge in Hi; lia).
         induction T as [|i T IH]; [reflexivity|]. cbn [filter].
